@@ -269,4 +269,32 @@ def distMatches (tol : Rat) (coords : List (List Rat)) (D : Dist) : Bool :=
           decide (0 ≤ d) && decide (e ≤ tol) && decide (-tol ≤ e)) coords row).all id) coords D).all id &&
   ((List.range D.length).all (fun i => dist D i i == 0))
 
+/-! ### the generator certificate for the transliterated generator (C10) -/
+
+/-- the support of the draws of `UniformGenerator`: `num_nodes + 1` points with both coordinates in the half-open
+interval `[0, 1)` (`jax.random.uniform`), `num_nodes + 1` integers in the documented range `[1, max_demand]`
+(`jax.random.randint(minval=1, maxval=max_demand)` draws from `[1, max_demand)`, a subset) -/
+def validUniform (numNodes : Nat) (maxDemand : Int) (coordDraw : List (List Rat)) (demandDraw : List Int) :
+    Prop :=
+  coordDraw.length = numNodes + 1 ∧ demandDraw.length = numNodes + 1 ∧
+  (∀ p ∈ coordDraw, p.length = 2 ∧ ∀ x ∈ p, 0 ≤ x ∧ x < 1) ∧
+  (∀ d ∈ demandDraw, 1 ≤ d ∧ d ≤ maxDemand)
+
+instance (n : Nat) (m : Int) (cd : List (List Rat)) (dd : List Int) : Decidable (validUniform n m cd dd) := by
+  unfold validUniform; infer_instance
+
+/-- generator certificate, evaluated on the implementation's reset states: shapes; coordinates in `[0, 1)`;
+depot demand 0; every customer demand an integer of `[1, max_demand]` and at most the vehicle's capacity;
+capacity = `max_capacity`; vehicle at the depot; only the depot visited; trajectory all depot; one visit counted -/
+def GenCert (n : Nat) (maxCap maxDemand : Int) (s : State) : Prop :=
+  s.coords.length = n + 1 ∧ s.demands.length = n + 1 ∧
+  (∀ p ∈ s.coords, p.length = 2 ∧ ∀ x ∈ p, 0 ≤ x ∧ x < 1) ∧
+  s.demands.getD DEPOT 1 = 0 ∧
+  (∀ d ∈ s.demands.drop 1, 1 ≤ d ∧ d ≤ maxDemand ∧ d ≤ maxCap) ∧
+  s.capacity = maxCap ∧ s.position = DEPOT ∧
+  s.visited = true :: List.replicate n false ∧ s.trajectory = List.replicate (2 * n) DEPOT ∧
+  s.numVisits = 1
+
+instance (n : Nat) (a b : Int) (s : State) : Decidable (GenCert n a b s) := by unfold GenCert; infer_instance
+
 end CVRP
